@@ -783,6 +783,133 @@ fn gen_tree_case(rng: &mut Rng, counter: &mut u64) -> (Vec<(String, String)>, Ve
     (tree, ops, tags)
 }
 
+// ------------------------------------------------------------------ VirtualAttributions::to_authorship_log
+// (the note builder of the squash / CI path: rewrite_authorship_after_squash_or_rebase). Model: the same
+// group / sort / merge loop as build_file_attestation_from_line_attributions (driver op `sq_to_log`).
+
+fn to_log_case(repo: &git_ai::git::repository::Repository, rng: &mut Rng, em: &mut Emitter) {
+    use git_ai::authorship::virtual_attribution::VirtualAttributions;
+    use std::collections::HashMap;
+    let names = ["a.rs", "src/b c.rs", "---", "\"q\"", "e.txt", "  lead"];
+    let authors = ["h1aaaaaaaaaaaaaa", "h2bbbbbbbbbbbbbb", "human", "h3cccccccccccccc"];
+    let mode = rng.pick(&["runs", "runs", "split-shuffled", "split-shuffled", "overlapping", "out-of-range"]);
+    let mut attributions = HashMap::new();
+    let mut contents = HashMap::new();
+    let mut req_files: Vec<(String, Vec<(u32, u32, String)>, u32)> = vec![];
+    let mut used = BTreeSet::new();
+    for _ in 0..(1 + rng.below(3)) {
+        let p = rng.pick(&names).to_string();
+        if !used.insert(p.clone()) {
+            continue;
+        }
+        let n = 1 + rng.below(24) as u32;
+        // a per-line author function with runs
+        let mut per_line: Vec<Option<&str>> = vec![];
+        let mut cur: Option<&str> = None;
+        for _ in 0..n {
+            if rng.chance(2, 5) {
+                cur = if rng.chance(1, 3) { None } else { Some(rng.pick(&authors)) };
+            }
+            per_line.push(cur);
+        }
+        let mut attrs: Vec<(u32, u32, String)> = vec![];
+        let mut i = 0usize;
+        while i < per_line.len() {
+            if let Some(a) = per_line[i] {
+                let mut j = i;
+                while j + 1 < per_line.len() && per_line[j + 1] == Some(a) {
+                    j += 1;
+                }
+                let (s, e) = (i as u32 + 1, j as u32 + 1);
+                if mode != "runs" && e > s && rng.chance(1, 2) {
+                    let m = s + rng.below((e - s) as u64) as u32;
+                    attrs.push((m + 1, e, a.to_string()));
+                    attrs.push((s, m, a.to_string()));
+                } else {
+                    attrs.push((s, e, a.to_string()));
+                }
+                i = j + 1;
+            } else {
+                i += 1;
+            }
+        }
+        if mode != "runs" {
+            for k in (1..attrs.len()).rev() {
+                let j = rng.below(k as u64 + 1) as usize;
+                attrs.swap(k, j);
+            }
+        }
+        if mode == "overlapping" && !attrs.is_empty() {
+            let (s, e, _) = attrs[rng.below(attrs.len() as u64) as usize].clone();
+            attrs.push((s, e + rng.below(3) as u32, rng.pick(&authors).to_string()));
+        }
+        if mode == "out-of-range" {
+            attrs.push((n + 1 + rng.below(3) as u32, n + 4, rng.pick(&authors).to_string()));
+        }
+        let las: Vec<LineAttribution> = attrs
+            .iter()
+            .map(|(s, e, a)| LineAttribution { start_line: *s, end_line: *e, author_id: a.clone(), overrode: None })
+            .collect();
+        attributions.insert(p.clone(), (vec![], las));
+        contents.insert(p.clone(), "l\n".repeat(n as usize));
+        req_files.push((p, attrs, n));
+    }
+    req_files.sort_by(|a, b| a.0.cmp(&b.0));
+    let va = VirtualAttributions::new(repo.clone(), "0".repeat(40), attributions, contents, 0);
+    let res = catch(std::panic::AssertUnwindSafe(move || va.to_authorship_log().map(|l| l.attestations).map_err(|e| e.to_string())));
+    let mut ok_wf = true;
+    let mut ok_cover = true;
+    let mut ok_range = true;
+    let mut out_sorted: Vec<FileAttestation> = vec![];
+    if let Ok(Ok(out)) = &res {
+        out_sorted = out.clone();
+        out_sorted.sort_by(|a, b| a.file_path.cmp(&b.file_path));
+        for (p, attrs, n) in &req_files {
+            let mine: Vec<&FileAttestation> = out.iter().filter(|f| &f.file_path == p).collect();
+            ok_wf &= mine.len() <= 1;
+            let mut want: BTreeMap<String, BTreeSet<u64>> = BTreeMap::new();
+            for (s, e, a) in attrs {
+                if a != "human" {
+                    want.entry(a.clone()).or_default().extend((*s as u64)..=(*e as u64));
+                }
+            }
+            let mut got: BTreeMap<String, BTreeSet<u64>> = BTreeMap::new();
+            let mut seen: BTreeSet<u64> = BTreeSet::new();
+            for f in &mine {
+                for e in &f.entries {
+                    ok_wf &= e.hash != "human" && ranges_sorted_disjoint(&e.line_ranges) && !e.line_ranges.is_empty() && !got.contains_key(&e.hash);
+                    let ex = expand(&e.line_ranges);
+                    if mode == "runs" || mode == "split-shuffled" {
+                        ok_wf &= ex.iter().all(|l| seen.insert(*l));
+                        ok_range &= ex.iter().all(|l| *l >= 1 && *l <= *n as u64);
+                    }
+                    got.entry(e.hash.clone()).or_default().extend(ex);
+                }
+            }
+            ok_cover &= want == got;
+        }
+        ok_wf &= out.iter().all(|f| req_files.iter().any(|(p, _, _)| p == &f.file_path));
+    }
+    let w = json!({"files": req_files.iter().map(|(p, a, n)| json!([p, a, n])).collect::<Vec<_>>()});
+    let oracles = vec![
+        oracle("to_log_ranges_wf", ok_wf, w.clone(), "to-authorship-log:ranges-not-wf"),
+        oracle("to_log_covers_exactly", ok_cover, w.clone(), "to-authorship-log:lines-lost-or-invented"),
+        oracle("to_log_lines_within_file", ok_range, w.clone(), "to-authorship-log:line-out-of-range"),
+        oracle("to_log_no_panic", matches!(res, Ok(Ok(_))), w, "to-authorship-log:panic-or-error"),
+    ];
+    let imp = match &res {
+        Ok(Ok(_)) => json!({"files": canon_files(&out_sorted)}),
+        _ => json!({"panic": true}),
+    };
+    em.emit(
+        "c05repo",
+        json!({"op": "sq_to_log", "files": req_files.iter().map(|(p, a, _)| json!([p, a.iter().map(|(s, e, h)| json!([s, e, h])).collect::<Vec<_>>()])).collect::<Vec<_>>()}),
+        imp,
+        oracles,
+        vec!["to-log".into(), format!("to-log:{mode}"), format!("to-log:files={}", req_files.len())],
+    );
+}
+
 pub fn run_repo(seed: u64, count: u64, corpus: Option<&str>, em: &mut Emitter) {
     let base = std::env::temp_dir().join(format!("vf-c05-harness-{}-{}", std::process::id(), seed));
     let _ = std::fs::remove_dir_all(&base);
@@ -835,6 +962,9 @@ pub fn run_repo(seed: u64, count: u64, corpus: Option<&str>, em: &mut Emitter) {
     for _ in 0..count {
         let (tree, ops, tags) = gen_tree_case(&mut rng, &mut counter);
         run_tree_case(&dir, &repo, &tree, &ops, em, &tags);
+    }
+    for _ in 0..(count / 2 + 40) {
+        to_log_case(&repo, &mut rng, em);
     }
     drop(scratch);
 }
